@@ -5,13 +5,13 @@ package internal
 // Contracts for package internal (daemon wiring), read by /verif/govc (comment-only, -tags verif).
 
 //@ func updateSensor
-//@   props C08
+//@   props C08 C09
 //@   split s
 //@   requires sensors.sensorWF(s) && configuration.CurrentConfig.TempRollingWindowSize >= 1 && configuration.CurrentConfig.TempRollingWindowSize <= 1000000000
-//@   requires fin(sensors.avgOf(s)) && abs(real(sensors.avgOf(s))) <= 1.0e300
+//@   let avgOK = fin(sensors.avgOf(s)) && abs(real(sensors.avgOf(s))) <= 1.0e300
 //@   ensures[C08.unchanged] err != nil ==> same(sensors.avgOf(s), old(sensors.avgOf(s)))
-//@   ensures[C08.finite]    err == nil && abs(real(lastValue)) <= 1.0e300 ==> fin(sensors.avgOf(s))
-//@   ensures[C08.hull]      err == nil && abs(real(lastValue)) <= 1.0e300 && (lastValue == old(sensors.avgOf(s)) || abs(real(lastValue)) >= 1.0e-270 || abs(real(old(sensors.avgOf(s)))) >= 1.0e-270) && configuration.CurrentConfig.TempRollingWindowSize >= 2 ==> min(old(sensors.avgOf(s)), lastValue) <= sensors.avgOf(s) && sensors.avgOf(s) <= max(old(sensors.avgOf(s)), lastValue)
+//@   ensures[C08.finite]    avgOK && err == nil && abs(real(lastValue)) <= 1.0e300 ==> fin(sensors.avgOf(s))
+//@   ensures[C08.hull]      avgOK && err == nil && abs(real(lastValue)) <= 1.0e300 && (lastValue == old(sensors.avgOf(s)) || abs(real(lastValue)) >= 1.0e-270 || abs(real(old(sensors.avgOf(s)))) >= 1.0e-270) && configuration.CurrentConfig.TempRollingWindowSize >= 2 ==> min(old(sensors.avgOf(s)), lastValue) <= sensors.avgOf(s) && sensors.avgOf(s) <= max(old(sensors.avgOf(s)), lastValue)
 //@   ensures[C08.readfin]   err == nil ==> fin(lastValue)
 //@   modifies lastValue, lastAvgRead, s.(*sensors.HwmonSensor).MovingAvg, s.(*sensors.FileSensor).MovingAvg, s.(*sensors.CmdSensor).MovingAvg, s.(*sensors.VirtualSensor).Value, lastReadFailed, procWorld, started
 
@@ -27,4 +27,19 @@ package internal
 
 //@ func RunDaemon$9
 //@   props C03
+//@   modifies anything
+
+// ---- sensor monitor actor (C09) ------------------------------------------------------------------------------
+//@ func (sensorMonitor).Run
+//@   props C09
+//@   requires sensors.sensorWF(s.sensor) && ctx != nil && configuration.CurrentConfig.TempRollingWindowSize >= 1 && configuration.CurrentConfig.TempRollingWindowSize <= 1000000000
+//@   ensures[C09.noerr] result == nil
+//@   modifies s.sensor.(*sensors.HwmonSensor).MovingAvg, s.sensor.(*sensors.FileSensor).MovingAvg, s.sensor.(*sensors.CmdSensor).MovingAvg, s.sensor.(*sensors.VirtualSensor).Value, lastValue, lastAvgRead, lastReadFailed, procWorld, started
+//@   loop 1 ""
+//@     invariant sensors.sensorWF(s.sensor) && ctx != nil && tick != nil
+
+//@ func RunDaemon$5
+//@   props C09
+//@   requires *mon != nil && *mon is sensorMonitor && sensors.sensorWF((*mon).(sensorMonitor).sensor) && *ctx != nil && sensors.sensorWF(*s)
+//@   requires configuration.CurrentConfig.TempRollingWindowSize >= 1 && configuration.CurrentConfig.TempRollingWindowSize <= 1000000000
 //@   modifies anything
